@@ -1311,6 +1311,15 @@ lyxml_dump_text(struct ly_out *out, const char *text, ly_bool attribute)
             /* a literal CR would be normalized to LF by every XML parser */
             ret = ly_print_(out, "&#xD;");
             break;
+        case '\t':
+        case '\n':
+            if (attribute) {
+                /* a literal TAB or LF in an attribute value would be normalized to a space */
+                ret = ly_print_(out, (text[u] == '\t') ? "&#x9;" : "&#xA;");
+            } else {
+                ret = ly_write_(out, &text[u], 1);
+            }
+            break;
         case '"':
             if (attribute) {
                 ret = ly_print_(out, "&quot;");
